@@ -130,7 +130,7 @@ func provPrims(archive []byte, base string, prov []byte, ringFile string) map[st
 func corrProv(seed uint64, n int, tier string, out string, replay string) {
 	m := StartModel()
 	defer m.Close()
-	rep := NewReport("C17", "prov", seed, "case = a chart archive signed with a freshly generated OpenPGP key, then one mutation: single-byte flip / insertion / deletion / truncation of the archive, of the provenance body, of the signature armor; renamed archive; keyring = signer only / other key only / both; the real Signatory.Verify, downloader.VerifyChart, ChartPathOptions.LocateChart with Verify (the install path) and ChartDownloader.DownloadTo over HTTP under the strategies always / if-possible / never (the download path) are run on every case (downloads on every fourth); the Verify verdict is compared with the model's decision fed with the primitive results (clearsign decode, signature check, digest, message parse) computed with the libraries directly; monitor: no mutant whose archive bytes or signed text differ from the original is accepted; non-trivial = every mutant; distinct = hash of mutation")
+	rep := NewReport("C17", "prov", seed, "case = a chart archive signed with a freshly generated OpenPGP key, then one mutation: single-byte flip / insertion / deletion / truncation of the archive, of the provenance body, of the signature armor; renamed archive; keyring = signer only / other key only / both; the real Signatory.Verify, downloader.VerifyChart, ChartPathOptions.LocateChart with Verify on the local archive and through --repo (the install paths) and ChartDownloader.DownloadTo over HTTP under the strategies always / if-possible / never (the download path) are run on every case (downloads on every fourth); the Verify verdict is compared with the model's decision fed with the primitive results (clearsign decode, signature check, digest, message parse) computed with the libraries directly; monitor: no mutant whose archive bytes or signed text differ from the original is accepted; non-trivial = every mutant; distinct = hash of mutation")
 	dir, _ := os.MkdirTemp("", "corr-prov")
 	defer os.RemoveAll(dir)
 	env := newProvEnv(dir, NewRng(seed, 0))
@@ -197,6 +197,25 @@ func corrProv(seed uint64, n int, tier string, out string, replay string) {
 				if (dl != nil) != wantErr {
 					rep.Issue(Issue{Kind: "monitor", Fingerprint: "C17:download-verify:" + st.name, What: fmt.Sprintf("DownloadTo with verification %s returned %v although Signatory.Verify says %v", st.name, dl, verr), Case: cs, Seed: seed, Index: idx})
 				}
+			}
+		}
+		// install path with --repo: the chart is looked up in the repository's index and downloaded
+		if idx%4 == 1 || idx < 5 {
+			os.WriteFile(filepath.Join(work, "index.yaml"), []byte(fmt.Sprintf("apiVersion: v1\nentries:\n  mychart:\n  - name: mychart\n    version: 1.2.3\n    apiVersion: v2\n    urls:\n    - %q\n", name)), 0o644)
+			st := cli.New()
+			st.RepositoryCache = filepath.Join(dir, fmt.Sprintf("rcache-%d", idx))
+			st.RepositoryConfig = repoCfg
+			os.MkdirAll(st.RepositoryCache, 0o755)
+			var rerr error
+			safely(func() {
+				o := action.ChartPathOptions{Verify: true, Keyring: ring, RepoURL: srv.URL}
+				_, rerr = o.LocateChart("mychart", st)
+			})
+			os.RemoveAll(st.RepositoryCache)
+			os.Remove(filepath.Join(work, "index.yaml"))
+			rep.H("locate-repo:" + map[bool]string{true: "error", false: "ok"}[rerr != nil])
+			if (rerr == nil) != (verr == nil) {
+				rep.Issue(Issue{Kind: "monitor", Fingerprint: "C17:locate-repo-verify-differs", What: fmt.Sprintf("LocateChart with --repo and Verify (%v) and Signatory.Verify (%v) disagree", rerr, verr), Case: cs, Seed: seed, Index: idx})
 			}
 		}
 		prims := provPrims(archive, name, prov, ring)
